@@ -8,6 +8,6 @@ for spec in "$@"; do
     timeout 3600 python3 tools/seedverify.py $cand $name 2>&1 | cut -c1-300
   fi
   if [ -f seeded/$name/meta.json ]; then
-    timeout 6000 python3 tools/seedrun.py seeded/$name "$@" 2>&1 | cut -c1-300
+    timeout 6000 python3 tools/seedrun.py seeded/$name "$@" --worktree 2>&1 | cut -c1-300
   fi
 done
